@@ -1,2 +1,35 @@
-(* C01 placeholder until Proofs/SendProofs.v exists *)
-From N2kV Require Import Model.NodeDefs Spec.SendSpec.
+(* C01 - sent messages are framed per NMEA 2000 (CAN id, single frame, fast packet).  Statements fixed in Spec/SendSpec.v. *)
+From Coq Require Import ZArith List.
+From N2kV Require Import Model.CanId Model.PgnClass Model.NodeDefs Spec.PgnClassRef Spec.SendSpec Proofs.SendProofs.
+Import ListNotations.
+Local Open Scope Z_scope.
+
+Theorem C01_can_id_fields : can_id_fields_stmt.  Proof. exact can_id_fields. Qed.
+Print Assumptions C01_can_id_fields.
+Theorem C01_can_id_refusal : can_id_refusal_stmt.  Proof. exact can_id_refusal. Qed.
+Print Assumptions C01_can_id_refusal.
+Theorem C01_fp_frames : fp_frames_stmt.  Proof. exact fp_frames_ok. Qed.
+Print Assumptions C01_fp_frames.
+Theorem C01_seq_consecutive : seq_consecutive_stmt.  Proof. exact seq_consecutive. Qed.
+Print Assumptions C01_seq_consecutive.
+(* the statement without the "only declared PGNs are sent" premise is false of the code: known finding seqid-undeclared *)
+Theorem C01_seq_unrestricted_refuted : seq_unrestricted_refuted_stmt.  Proof. exact seq_unrestricted_refuted. Qed.
+Print Assumptions C01_seq_unrestricted_refuted.
+Theorem C01_classification : classification_stmt.  Proof. exact classification. Qed.
+Print Assumptions C01_classification.
+Theorem C01_classification_ext : classification_ext_stmt.  Proof. exact classification_ext. Qed.
+Print Assumptions C01_classification_ext.
+Theorem C01_gate_refuses : gate_refuses_stmt.  Proof. exact gate_refuses. Qed.
+Print Assumptions C01_gate_refuses.
+Theorem C01_send_ok : send_ok_stmt.  Proof. exact send_ok. Qed.
+Print Assumptions C01_send_ok.
+
+(* non-vacuity: a 223-byte payload on PGN 129029 from source 22 passes the gate and gives 32 frames that decode to the payload *)
+Example C01_nonvacuous :
+  let n := opened_node true 1 5000 40 no_lists [mk_dev true 22 1 [129029]] in
+  let m := {| m_pri := 3; m_pgn := 129029; m_src := 0; m_dst := 255; m_data := repeat 17 223; m_tp := false |} in
+  (exists n1 i id, send_gate n m 0 = (n1, Some ({| m_pri := 3; m_pgn := 129029; m_src := 22; m_dst := 255; m_data := repeat 17 223; m_tp := false |}, i, id)))
+  /\ length (fp_frames (Z.shiftl 7 5) (repeat 17 223)) = 32%nat
+  /\ ref_decode (fp_frames (Z.shiftl 7 5) (repeat 17 223)) = Some (repeat 17 223).
+Proof. cbv zeta. split; [eexists; eexists; eexists; vm_compute; reflexivity | split; vm_compute; reflexivity]. Qed.
+Print Assumptions C01_nonvacuous.
